@@ -549,3 +549,35 @@ Proof.
     + rewrite <- I3. exact Hnd.
     + intros fd Hin Ho. rewrite <- I3. apply Hreq; assumption.
 Qed.
+
+(* a member whose value the member decoder rejects: the request is rejected with that very error, after any
+   run of valid, distinct parameters before it (errors are never swallowed or re-labelled by the map loop) *)
+Theorem dec_indexed_member_error : forall e k name s d fs entries fd n i' ce,
+  lookup e name = Some (DStruct true s d fs) ->
+  Forall (idx_entry_ok (dec e k) fs) entries ->
+  NoDup (map en_label entries) ->
+  ~ In (f_label fd) (map en_label entries) ->
+  0 <= idx_key fd < 18446744073709551616 -> find_idx_field (idx_key fd) fs = Some fd ->
+  blen entries < n < 4294967296 ->
+  dec e k (if f_opt fd then inner_ty (f_ty fd) else f_ty fd) i' = Err ce ->
+  dec e (S k) (TNamed name)
+      (put_head 5 n ++ List.concat (map enc_idx_entry entries) ++ put_head 0 (idx_key fd) ++ i')
+  = Err ce.
+Proof.
+  intros e k name s d fs entries fd n i' ce Hl Hok Hnd Hfresh Hk Hfind Hn Herr.
+  cbn [dec]. rewrite Hl. pose proof (blen_nonneg entries).
+  rewrite raw_u32_put_head by lia. cbn [bind].
+  set (tail := put_head 0 (idx_key fd) ++ i').
+  assert (Hlen : (List.length entries <= List.length (List.concat (map enc_idx_entry entries) ++ tail))%nat).
+  { rewrite app_length. pose proof (enc_idx_entries_len entries). lia. }
+  set (total := List.length (List.concat (map enc_idx_entry entries) ++ tail)) in *.
+  replace (S total) with (List.length entries + S (total - List.length entries))%nat by lia.
+  replace n with (blen entries + (n - blen entries)) by lia.
+  rewrite idx_loop_entries_then; try assumption; try lia; [|intros en _ []].
+  rewrite app_nil_r. cbn [idx_loop].
+  destruct (n - blen entries <=? 0) eqn:E; [apply Z.leb_le in E; lia|].
+  unfold tail. rewrite raw_u64_put_head by exact Hk. cbn [bind]. rewrite Hfind.
+  assert (Hnone : rget (f_label fd) (rev (map en_item_idx entries)) = None).
+  { apply rget_none_notin. rewrite map_rev, <- in_rev, map_map. unfold en_item_idx. cbn [fst]. exact Hfresh. }
+  rewrite Hnone. rewrite Herr. reflexivity.
+Qed.
